@@ -281,6 +281,9 @@ io_buf_realloc(io_buf_p *pio_buf, const uint32_t flags, const size_t size) {
 	if (io_buf->transfer_size > io_buf->used) {
 		io_buf->transfer_size = io_buf->used;
 	}
+	if (io_buf->transfer_size > IO_BUF_OFFSET_SIZE(io_buf)) { /* Keep window inside buf. */
+		io_buf->transfer_size = IO_BUF_OFFSET_SIZE(io_buf);
+	}
 
 	return (0);
 }
@@ -412,7 +415,10 @@ io_buf_prepend(io_buf_p io_buf, const size_t size, const int allow_data_lost) {
 		memmove((io_buf->data + size), io_buf->data, io_buf->used);
 		io_buf->used += size;
 	}
-	IO_BUF_OFFSET_INC(io_buf, size);		
+	IO_BUF_OFFSET_INC(io_buf, size);
+	if (io_buf->transfer_size > IO_BUF_OFFSET_SIZE(io_buf)) { /* Keep window inside buf. */
+		io_buf->transfer_size = IO_BUF_OFFSET_SIZE(io_buf);
+	}
 
 	return (0);
 }
